@@ -23,6 +23,9 @@ package ctfe
 //@ ensures [align-only-shortens] result2 == nil && align ==> wide(result1) <= unaligned
 //@ ensures [align-boundary] result2 == nil && align && wide(result1) != unaligned ==> (wide(result1) + 1) % wide(maxRange) == 0
 //@ ensures [error-zero] result2 != nil ==> result0 == 0 && result1 == 0
+//@ ensures [caller-view] result2 == nil ==> 0 <= result0 && result0 <= result1 && result1 - result0 + 1 <= maxRange
+//@ modifies nothing
+//@ note modifies nothing: the only non-pure callee is the metrics counter (pure-callees list)
 
 //@ func (*logInfo).toHTTPStatus
 //@ props C08
@@ -87,7 +90,7 @@ package ctfe
 //@ props C06 C08
 //@ arith int
 //@ pure
-//@ loop 1 invariant -1 <= rangeindex && rangeindex < len(path) + (len(path) == 0 ? 1 : 0) && (forall j int :: 0 <= j && j <= rangeindex ==> len(path[j]) == 32)
+//@ loop 1 invariant forall j int :: 0 <= j && j <= rangeindex ==> len(path[j]) == 32
 //@ ensures [all-32] result <==> (forall j int :: 0 <= j && j < len(path) ==> len(path[j]) == 32)
 
 //@ func getSTHConsistency
@@ -111,3 +114,76 @@ package ctfe
 //@ at rpc assert [request-fields] rpc.in.LogId == li.logID && rpc.in.FirstTreeSize == pr.res0 && rpc.in.SecondTreeSize == pr.res1
 //@ at ths assert [maps-backend-error] ths.err == rpc.res1
 //@ at cap assert [checks-returned-proof] rpc.res0.Proof != nil && cap.path == rpc.res0.Proof.Hashes
+
+//@ func (github.com/google/certificate-transparency-go/trillian/ctfe.leafChainBuilder).FixLogLeaf
+//@ assumed
+//@ requires leaf != nil
+//@ modifies leaf.ExtraData
+//@ note interface contract; both implementations in services.go are verified against it under C14
+
+//@ func (github.com/google/certificate-transparency-go/trillian/ctfe.RequestLog).IssueSCT
+//@ assumed
+//@ pure
+
+//@ func (*github.com/google/trillian/types.LogRootV1).UnmarshalBinary
+//@ assumed
+//@ modifies *l
+//@ note decoder writes only its receiver
+
+//@ func getProofByHash
+//@ props C06 C08
+//@ stable li
+//@ site FormValue#1 as fvh
+//@ site DecodeString#1 as dec
+//@ site strconv.ParseInt#1 as pi
+//@ site GetInclusionProofByHash#1 as rpc
+//@ site UnmarshalBinary#1 as um
+//@ site checkAuditPath#1 as cap
+//@ site toHTTPStatus#1 as ths
+//@ site Write#1 as wr
+//@ requires li != nil && li.rpcClient != nil && li.RequestLog != nil && w != nil && r != nil
+//@ ensures [no-rpc-is-400] !rpc.called ==> result0 == 400 && result1 != nil
+//@ ensures [rpc-only-after-validation] rpc.called ==> len(fvh.res) != 0 && dec.res1 == nil && pi.err == nil && pi.i >= 1
+//@ ensures [backend-error-mapped] rpc.called && rpc.res1 != nil ==> result0 == ths.res && result1 != nil && !wr.called
+//@ ensures [backend-error-never-200] li.instanceOpts.ErrorMapper == nil && rpc.called && rpc.res1 != nil ==> result0 != 200
+//@ ensures [200-sane] li.instanceOpts.ErrorMapper == nil && result0 == 200 ==> result1 == nil && rpc.called && rpc.res1 == nil && um.called && um.res == nil && cap.called && cap.res && after(rpc, len(rpc.res0.Proof) > 0)
+//@ ensures [non200-error] result0 != 200 ==> result1 != nil
+//@ ensures [bad-root-500] um.called && um.res != nil ==> result0 == 500
+//@ ensures [small-tree-404] um.called && um.res == nil && after(um, currentRoot.TreeSize) < uint64(pi.i) ==> result0 == 404
+//@ ensures [no-proof-404] um.called && um.res == nil && after(um, currentRoot.TreeSize) >= uint64(pi.i) && after(rpc, len(rpc.res0.Proof) == 0) ==> result0 == 404
+//@ ensures [bad-proof-500] cap.called && !cap.res ==> result0 == 500
+//@ at rpc assert [request-fields] rpc.in.LogId == li.logID && rpc.in.LeafHash == dec.res0 && rpc.in.TreeSize == pi.i && rpc.in.OrderBySequence
+//@ at ths assert [maps-backend-error] ths.err == rpc.res1
+//@ at cap assert [checks-first-proof] cap.path == after(rpc, rpc.res0.Proof[0].Hashes)
+
+//@ func rpcGetLeavesByRange
+//@ props C07 C08 C14
+//@ arith int
+//@ stable li
+//@ site GetLeavesByRange#1 as rpc
+//@ site FixLogLeaf#1 as fix
+//@ site toHTTPStatus#1 as ths
+//@ requires li != nil && li.rpcClient != nil && li.issuanceChainService != nil && req != nil
+//@ loop 1 invariant rpc.res0.Leaves == after(rpc, rpc.res0.Leaves)
+//@ loop 1 invariant forall j int :: 0 <= j && j < len(rpc.res0.Leaves) ==> rpc.res0.Leaves[j] != nil
+//@ ensures [backend-error-mapped] rpc.res1 != nil ==> result0 == nil && result1 == ths.res && result2 != nil
+//@ ensures [success-is-reply] result2 == nil ==> result0 == rpc.res0 && result0 != nil && result1 == 200 && rpc.res1 == nil
+//@ ensures [success-leaves-non-nil] result2 == nil ==> (forall j int :: 0 <= j && j < len(result0.Leaves) ==> result0.Leaves[j] != nil)
+//@ ensures [error-never-200] li.instanceOpts.ErrorMapper == nil && result2 != nil ==> result1 != 200
+//@ ensures [fix-error-500] fix.called && fix.res != nil ==> result1 == 500 && result2 != nil && result0 == nil
+//@ at rpc assert [request-forwarded] rpc.in == req
+//@ at ths assert [maps-backend-error] ths.err == rpc.res1
+
+//@ func rpcGetEntryAndProof
+//@ props C07 C08 C14
+//@ stable li
+//@ site GetEntryAndProof#1 as rpc
+//@ site FixLogLeaf#1 as fix
+//@ site toHTTPStatus#1 as ths
+//@ requires li != nil && li.rpcClient != nil && li.issuanceChainService != nil && req != nil
+//@ ensures [backend-error-mapped] rpc.res1 != nil ==> result0 == nil && result1 == ths.res && result2 != nil
+//@ ensures [success-is-reply] result2 == nil ==> result0 == rpc.res0 && result0 != nil && result1 == 200 && rpc.res1 == nil
+//@ ensures [error-never-200] li.instanceOpts.ErrorMapper == nil && result2 != nil ==> result1 != 200
+//@ ensures [fix-error-500] fix.called && fix.res != nil ==> result1 == 500 && result2 != nil && result0 == nil
+//@ at rpc assert [request-forwarded] rpc.in == req
+//@ at fix assert [fixes-returned-leaf] fix.leaf == after(rpc, rpc.res0.Leaf)
